@@ -1,6 +1,6 @@
 SPECIFICATION GSpec
 CONSTANTS Steps = 5
-  Ops = {"new2", "mv21", "mv32", "mv12", "dest1", "dest2", "lddest", "ldkeep"}
+  Ops = {"new2", "mv21", "mv32", "mv12", "dest1", "dest2", "lddest", "ldkeep", "lireenter", "liplain"}
   CreateHooks = {"none", "wmv:me:o1"}
   InitHooks = {"none", "wdest:o2"}
   ModHooks = {"stay", "go"}
